@@ -160,7 +160,7 @@ class _ColorSequences:
                 raise ValueError(
                     f"Invalid int {param_name} id {color}. Valid int color id "
                     f"should be in range(256)")
-            return f"{fg_bg_id}8:5:{color}"
+            return f"{fg_bg_id}8:5:{int(color)}"
 
         raise ValueError(f"Invalid {param_name} object: {type(color)}: {color!r}")
 
